@@ -10,14 +10,16 @@
 (* present, terminology check) to a private validation.                    *)
 (* Actions: default validation, creation of a custom validation, adding a  *)
 (* custom rule to it, running it, creating objects, setting cardinalities  *)
-(* (both run private validations internally), save and load.               *)
+(* (both run private validations internally), save and load;               *)
+(* clone_validate: a copy of the document is edited and validated twice,   *)
+(* through Document.validate() and through a new Validation object.        *)
 (* Every history up to length Depth is generated and replayed on one       *)
 (* evolving interpreter state.                                             *)
 (***************************************************************************)
 EXTENDS Naturals, Sequences, FiniteSets, TLC, Json
 CONSTANTS Depth, MaxInst
 VARIABLES hist, ninst, inst, ver
-Alphabet == {"default_validate", "doc_validate", "section_validate", "property_validate", "rerun_last", "report_last", "new_custom", "create_section", "create_property", "set_card", "save", "load"} \cup
+Alphabet == {"default_validate", "doc_validate", "section_validate", "property_validate", "rerun_last", "report_last", "clone_validate", "new_custom", "create_section", "create_property", "set_card", "save", "load"} \cup
             {"register_" \o k : k \in {"section", "property", "optional"}} \cup {"run_custom"}
 Init == hist = <<>> /\ ninst = 0 /\ inst = [i \in 1..MaxInst |-> {}] /\ ver = 0
 Do(a) ==
